@@ -18,7 +18,7 @@ checks, na = [], []
 for p in props:
     pid = p["id"]
     c = cfg.get(pid)
-    if not c or c.get("disabled"):
+    if not c or c.get("disabled") or not c.get("ready"):
         na.append({"property_id": pid, "reason": (c or {}).get("na_reason", "check not built yet (work in progress); see DESIGN.md")})
         continue
     e = {
